@@ -302,6 +302,8 @@ class IntShim(metaclass=_IntMeta):
     def __new__(cls, x=0, *a):
         if type(x) is SymInt:
             return x
+        if type(x) is SymFlag:
+            return x.value
         return _int(x, *a)
 
     @staticmethod
@@ -327,7 +329,78 @@ class IntShim(metaclass=_IntMeta):
         return acc
 
 
+class SymFlag:
+    """Stand-in for an IntFlag *instance* whose value is symbolic.
+
+    Provides what the code under test uses of such an instance: it is an int,
+    an instance of its enum class, has dali_width(), to_bytes(), and
+    `.__class__(n)` builds a new value of the same enum."""
+
+    def __init__(self, enum_cls, value):
+        self.enum_cls = enum_cls
+        self.value = value
+
+    @property
+    def __class__(self):
+        return _SymFlagClass(self.enum_cls)
+
+    def dali_width(self):
+        return self.enum_cls.dali_width()
+
+    def to_bytes(self, *a, **k):
+        v = self.value
+        if type(v) is SymInt:
+            return v.to_bytes(*a, **k)
+        return _int(v).to_bytes(*a, **k)
+
+    def __int__(self):
+        return self.value
+
+    def __index__(self):
+        return self.value.__index__()
+
+    def __and__(self, o):
+        return self.value & (o.value if _isinstance(o, SymFlag) else o)
+
+    def __eq__(self, o):
+        return self.value == (o.value if type(o) is SymFlag else o)
+
+    __hash__ = None
+
+    def __repr__(self):
+        return "SymFlag(%s, %r)" % (self.enum_cls.__name__, self.value)
+
+
+class _SymFlagClass:
+    def __init__(self, enum_cls):
+        self.enum_cls = enum_cls
+        self.__name__ = enum_cls.__name__
+
+    def __call__(self, n):
+        if type(n) is SymInt:
+            return SymFlag(self.enum_cls, n)
+        return self.enum_cls(n)
+
+    def dali_width(self):
+        return self.enum_cls.dali_width()
+
+    def __getattr__(self, name):
+        return getattr(self.enum_cls, name)
+
+    def __iter__(self):
+        return iter(self.enum_cls)
+
+    def __len__(self):
+        return len(self.enum_cls)
+
+
 def sym_isinstance(obj, cls):
+    if type(obj) is SymFlag:
+        if cls is _int or cls is IntShim:
+            return True
+        if _isinstance(cls, tuple):
+            return any(sym_isinstance(obj, c) for c in cls)
+        return _isinstance(cls, type) and issubclass(obj.enum_cls, cls)
     if cls is _int or cls is IntShim:
         return _isinstance(obj, (_int, SymInt))
     if _isinstance(cls, tuple):
@@ -335,6 +408,8 @@ def sym_isinstance(obj, cls):
             if sym_isinstance(obj, c):
                 return True
         return False
+    if type(cls) is _SymFlagClass:
+        return _isinstance(obj, cls.enum_cls)
     if cls is _bytes:
         return _isinstance(obj, (_bytes, SymBytes)) and not _isinstance(obj, SymByteArray)
     if cls is _bytearray:
